@@ -237,6 +237,13 @@ for (nm, tier, props, b) in (
 
 _k("i2_recv_churn_bcast_n2_b2", MQ_S, "I", ["C01", "C06", "C12"], "quick", "N=2, shared stream; env = sibling receives + sibling handles cloned/dropped; 2 env actions", label="proved-for-stated-bounds (<= 2 env actions)")
 _k("i2_recv_churn_mpmc_n2_b2", MQ_S, "I", ["C01", "C12"], "thorough", "N=2, shared stream; env = sibling receives + sibling handles cloned/dropped; 2 env actions", label="proved-for-stated-bounds (<= 2 env actions)")
+for (nm, props) in (("i1_send_multi_bcast_n2_b1", ["C01", "C02", "C03", "C04", "C12"]), ("i1_send_multi_mpmc_n2_b1", ["C01", "C02", "C03", "C12"]),
+                    ("i2_recv_shared_bcast_n2_b1", ["C01", "C02", "C04", "C05", "C06", "C07", "C12"]), ("i2_recv_shared_mpmc_n2_b1", ["C01", "C02", "C05", "C06", "C07", "C12"]),
+                    ("i2_recv_churn_bcast_n2_b1", ["C01", "C06", "C12"]), ("i5_recv_args_shared_bcast_n2_b1", ["C08"]), ("i5_recv_args_shared_mpmc_n2_b1", ["C08"])):
+    _k(nm, MQ_S, "I", props, "quick", IB % 1, label="proved-for-stated-bounds (<= 1 env action, <= 1 retry)")
+_k("i6_add_stream_sole_n1_b3", MQ_S, "I", ["C10"], "quick", "N=1, sole parent handle; env = producers publishing + other consumers; 3 env actions", label="proved-for-stated-bounds (<= 3 env actions)")
+_k("i6_add_stream_sole_n2_b2", MQ_S, "I", ["C10"], "thorough", "N=2, sole parent handle; 2 env actions", label="proved-for-stated-bounds (<= 2 env actions)")
+_k("i6_add_stream_shared_n1_b3", MQ_S, "I", ["C10"], "quick", "N=1, SHARED parent stream; env = producers publishing + siblings of the parent consuming; 3 env actions", label="proved-for-stated-bounds (<= 3 env actions)")
 _k("i13_drop_send_race_bcast_n2", MQ_S, "I", ["C07", "C08", "C14"], "quick", "writer count 1..3; another sender dropped at any point in between", label="proved-for-stated-bounds (<= 1 env action)")
 _k("i13_drop_send_race_mpmc_n2", MQ_S, "I", ["C07", "C08"], "thorough", "writer count 1..3; another sender dropped at any point in between", label="proved-for-stated-bounds (<= 1 env action)")
 _k("i12_remove_consumer_n2", MQ_S, "I", ["C11", "C12"], "quick", "consumer count 1..3; a sibling handle dropped at any point in between", label="proved-for-stated-bounds (<= 1 env action)")
